@@ -70,6 +70,12 @@ pub fn build_auth_with<S: passkey_authenticator::CredentialStore>(cfg: &Value, s
     let mut a = Authenticator::new(Aaguid(aaguid), store, uv);
     a.set_make_credentials_with_signature_counter(cfg["counterOn"].as_bool().unwrap());
     a.set_make_credential_id_length(CredentialIdLength::from(cfg["idLen"].as_u64().unwrap() as u8));
+    // which transports the authenticator is built with: the default, none at all, or a single one
+    a = match cfg["tr"].as_str().unwrap_or("default") {
+        "empty" => a.transports(vec![]),
+        "usb" => a.transports(vec![passkey_types::webauthn::AuthenticatorTransport::Usb]),
+        _ => a,
+    };
     let mc = cfg["mc"].as_bool().unwrap();
     let with = |c: HmacSecretConfig| if mc { c.enable_on_make_credential() } else { c };
     match cfg["hmac"].as_str().unwrap() {
@@ -198,7 +204,9 @@ impl Run {
         } else {
             Some(make_credential::ExtensionInputs { hmac_secret: hs, hmac_secret_mc: None, prf })
         };
-        self.cdh = (0..32).map(|_| self.rng.gen()).collect();
+        // the client-data hash is whatever bytes the caller sends ("h<N>": N bytes; "h1": a SHA-256 sized one)
+        let n: usize = req["cdh"].as_str().and_then(|t| t.strip_prefix('h')).and_then(|t| t.parse().ok()).filter(|n| *n != 1).unwrap_or(32);
+        self.cdh = (0..n).map(|_| self.rng.gen()).collect();
         make_credential::Request {
             client_data_hash: self.cdh.clone().into(),
             rp: make_credential::PublicKeyCredentialRpEntity { id: rp, name: Some("Example RP".into()) },
@@ -236,7 +244,9 @@ impl Run {
         } else {
             Some(get_assertion::ExtensionInputs { hmac_secret: None, prf })
         };
-        self.cdh = (0..32).map(|_| self.rng.gen()).collect();
+        // the client-data hash is whatever bytes the caller sends ("h<N>": N bytes; "h1": a SHA-256 sized one)
+        let n: usize = req["cdh"].as_str().and_then(|t| t.strip_prefix('h')).and_then(|t| t.parse().ok()).filter(|n| *n != 1).unwrap_or(32);
+        self.cdh = (0..n).map(|_| self.rng.gen()).collect();
         get_assertion::Request {
             rp_id: rp,
             client_data_hash: self.cdh.clone().into(),
